@@ -95,6 +95,8 @@ type TSchema struct {
 	IncludeText string
 	// Consts: constant / enum declarations of the main file (defaults spelled through identifiers)
 	Consts []string
+	// ExcID: field id of the exception in the response wrapper (0 = 1)
+	ExcID int
 }
 
 // AddInclude registers an included IDL file (and its include line) once.
@@ -523,7 +525,11 @@ func renderIDL(s *TSchema) string {
 	}
 	root := s.Root.St.Name
 	sb.WriteString("exception SimExc {\n  1: i32 code\n  2: string msg\n}\n\n")
-	fmt.Fprintf(&sb, "service Sim {\n  %s Call(1: %s req) throws (1: SimExc e)\n}\n", root, root)
+	exc := s.ExcID
+	if exc == 0 {
+		exc = 1
+	}
+	fmt.Fprintf(&sb, "service Sim {\n  %s Call(1: %s req) throws (%d: SimExc e)\n}\n", root, root, exc)
 	return sb.String()
 }
 
